@@ -269,10 +269,12 @@ double _vnacal_new_solve_calc_pvalue(vnacal_new_solve_state_t *vnssp,
      */
 
     /*
-     * If there are no degrees of freedom, then the p-value is zero.
+     * If there are no degrees of freedom, the system is exactly
+     * determined: there are no residuals, thus nothing with which
+     * to reject the null hypothesis.
      */
     if (df < 1) {
-	return 0.0;
+	return 1.0;
     }
 
     /*
